@@ -71,23 +71,44 @@ theorem C06_hit_exprCnt (E : Env) (rec : Expr → PState → Outcome) (e : Expr)
 
 /-- **C06 (d), partial: Memoize never changes the result.** Standard template without left-recursion support
     (`MemoCfg`), no expression budget; node identifiers unique, no throw/recover (`Expr.Ok`, as C06 requires); code
-    blocks pure functions of text and pos that take NO label arguments (`PureCode`; with labels the statement is
-    false — finding D7 below). Then, for every input and at every pair of depths at which both parses end,
-    `Parse` with Memoize(true) and with Memoize(false) return the same value and the same error list — except
-    that when both fail without any code-block error each reports one synthesized farthest-failure message, and
-    those two messages need not be equal (C06 compares success, value and code-block errors only). -/
+    blocks pure functions of text and pos that take NO label arguments, predicate blocks not looking at pos/text
+    (`PureCode`; with labels the statement is false — finding D7 —, with predicates reading pos/text too — finding D27).
+    Then, for every input: if `Parse` with Memoize(false) returns at depth `fN`, `Parse` with Memoize(true) returns at
+    every depth `fM ≥ fN` (it never needs more), with the same value and the same error list — except that when both
+    fail without any code-block error each reports one synthesized farthest-failure message, and those two messages need
+    not be equal (C06 compares success, value and code-block errors only). -/
 theorem C06_memoize_same_result_partial (E : Env) (own : Nat → Option String) (node : Nat → Option Expr)
+    (isPred : Nat → Bool) (hc : MemoCfg E) (hp : PureCode E isPred)
+    (hG : ∀ n r, E.findRule n = some r → r.expr.Ok own node isPred n)
+    (fM fN : Nat) (hle : fN ≤ fM) (v2 : Val) (errs2 : List String) (s2 : PState)
+    (h2 : parse (setMemo E false) fN = .ret v2 errs2 s2) :
+    ∃ errs1 s1, parse (setMemo E true) fM = .ret v2 errs1 s1 ∧
+      (errs1 = errs2 ∨ ∃ m1 m2, errs1 = [m1] ∧ errs2 = [m2] ∧ v2 = .nil) := by
+  have h := memo_sound hc hp hG fM fN hle
+  rw [h2] at h
+  rcases h with h | h
+  · cases h
+  · cases h1 : parse (setMemo E true) fM with
+    | oof => rw [h1] at h; exact h.elim
+    | panic p s => rw [h1] at h; exact h.elim
+    | ret v1 errs1 s1 =>
+      rw [h1] at h
+      obtain ⟨rfl, h'⟩ := h
+      exact ⟨errs1, s1, rfl, h'⟩
+
+/-- the same, for any two depths at which both parses have returned -/
+theorem C06_memoize_same_result_any_depth_partial (E : Env) (own : Nat → Option String) (node : Nat → Option Expr)
     (isPred : Nat → Bool) (hc : MemoCfg E) (hp : PureCode E isPred)
     (hG : ∀ n r, E.findRule n = some r → r.expr.Ok own node isPred n)
     (fM fN : Nat) (v1 v2 : Val) (errs1 errs2 : List String) (s1 s2 : PState)
     (h1 : parse (setMemo E true) fM = .ret v1 errs1 s1) (h2 : parse (setMemo E false) fN = .ret v2 errs2 s2) :
     v1 = v2 ∧ (errs1 = errs2 ∨ ∃ m1 m2, errs1 = [m1] ∧ errs2 = [m2] ∧ v1 = .nil) := by
-  have h := memo_sound hc hp hG fM fN
-  rw [h1, h2] at h
-  rcases h with h | h | h
-  · cases h
-  · cases h
-  · exact h
+  obtain ⟨e1, t1, h3, h4⟩ := C06_memoize_same_result_partial E own node isPred hc hp hG (max fM fN) fN
+    (Nat.le_max_right _ _) v2 errs2 s2 h2
+  have := parse_mono (setMemo E true) (Nat.le_max_left fM fN) (by rw [h1]; simp)
+  rw [h1, h3] at this
+  cases this
+  exact ⟨rfl, h4⟩
 
 /-- success and failure agree: one parse reports no error iff the other reports none -/
 theorem C06_memoize_same_success_partial (E : Env) (own : Nat → Option String) (node : Nat → Option Expr)
@@ -96,25 +117,36 @@ theorem C06_memoize_same_success_partial (E : Env) (own : Nat → Option String)
     (fM fN : Nat) (v1 v2 : Val) (errs1 errs2 : List String) (s1 s2 : PState)
     (h1 : parse (setMemo E true) fM = .ret v1 errs1 s1) (h2 : parse (setMemo E false) fN = .ret v2 errs2 s2) :
     (errs1 = [] ↔ errs2 = []) := by
-  obtain ⟨_, h | ⟨m1, m2, e1, e2, _⟩⟩ := C06_memoize_same_result_partial E own node isPred hc hp hG fM fN v1 v2 errs1 errs2 s1 s2 h1 h2
+  obtain ⟨_, h | ⟨m1, m2, e1, e2, _⟩⟩ := C06_memoize_same_result_any_depth_partial E own node isPred hc hp hG fM fN v1 v2 errs1 errs2 s1 s2 h1 h2
   · rw [h]
   · rw [e1, e2]; simp
 
-/-- a panic that escapes (`Recover(false)`) is the same panic -/
+/-- a panic that escapes (`Recover(false)`) is the same panic; and the memoized parser never needs more depth -/
 theorem C06_memoize_same_panic_partial (E : Env) (own : Nat → Option String) (node : Nat → Option Expr)
     (isPred : Nat → Bool) (hc : MemoCfg E) (hp : PureCode E isPred)
     (hG : ∀ n r, E.findRule n = some r → r.expr.Ok own node isPred n)
-    (fM fN : Nat) (p1 : PanicVal) (s1 : PState) (h1 : parse (setMemo E true) fM = .panic p1 s1)
-    (hne : parse (setMemo E false) fN ≠ .oof) : ∃ s2, parse (setMemo E false) fN = .panic p1 s2 := by
-  have h := memo_sound hc hp hG fM fN
-  rw [h1] at h
-  rcases h with h | h | h
+    (fM fN : Nat) (hle : fN ≤ fM) (p2 : PanicVal) (s2 : PState) (h2 : parse (setMemo E false) fN = .panic p2 s2) :
+    ∃ s1, parse (setMemo E true) fM = .panic p2 s1 := by
+  have h := memo_sound hc hp hG fM fN hle
+  rw [h2] at h
+  rcases h with h | h
   · cases h
-  · exact absurd h hne
-  · cases h2 : parse (setMemo E false) fN with
-    | oof => exact absurd h2 hne
-    | ret v errs s => rw [h2] at h; exact h.elim
-    | panic p2 s2 => rw [h2] at h; exact ⟨s2, by rw [show p1 = p2 from h]⟩
+  · cases h1 : parse (setMemo E true) fM with
+    | oof => rw [h1] at h; exact h.elim
+    | ret v errs s => rw [h1] at h; exact h.elim
+    | panic p1 s1 => rw [h1] at h; exact ⟨s1, by rw [show p1 = p2 from h]⟩
+
+/-- **the memoized parser terminates whenever the plain one does** (same hypotheses) -/
+theorem C06_memoized_terminates_if_plain_does_partial (E : Env) (own : Nat → Option String) (node : Nat → Option Expr)
+    (isPred : Nat → Bool) (hc : MemoCfg E) (hp : PureCode E isPred)
+    (hG : ∀ n r, E.findRule n = some r → r.expr.Ok own node isPred n)
+    (fN : Nat) (hN : parse (setMemo E false) fN ≠ .oof) : parse (setMemo E true) fN ≠ .oof := by
+  have h := memo_sound hc hp hG fN fN (Nat.le_refl _)
+  rcases h with h | h
+  · exact absurd h hN
+  · intro h1
+    rw [h1] at h
+    cases h2 : parse (setMemo E false) fN <;> rw [h2] at h <;> first | exact h.elim | exact hN h2
 
 /-- **Locality** (the lemma behind it, of independent interest): without Memoize, what an expression returns, where
     it ends and which errors it appends depend only on the position and the innermost rule — not on the label
@@ -132,8 +164,7 @@ theorem C06_evaluation_is_local_partial (E : Env) (own : Nat → Option String) 
   have hl := loc hc hp hG t1.errs t2.errs f e t1 t2 rn r
     (LRel_iff.mpr ⟨hpt, by rw [h1, h2], hreach, [], by simp, by simp⟩) he hf h1
   rw [hr] at hl
-  rcases hl.cases with hl | hl | ⟨v', ok', a, b, e1, e2, hrel, _, _⟩ | ⟨p, a, b, e1, _, _⟩
-  · cases hl
+  rcases hl.cases with hl | ⟨v', ok', a, b, e1, e2, hrel, _, _⟩ | ⟨p, a, b, e1, _, _⟩
   · exact absurd hl hne
   · cases e1
     obtain ⟨l1, _, _, A, hA1, hA2⟩ := LRel_iff.mp hrel
@@ -218,7 +249,7 @@ theorem memo_is_used :
 example (v1 v2 : Val) (errs1 errs2 : List String) (s1 s2 : PState)
     (h1 : parse (env true "aab?") 40 = .ret v1 errs1 s1) (h2 : parse (env false "aab?") 40 = .ret v2 errs2 s2) :
     v1 = v2 :=
-  (C06_memoize_same_result_partial (env false "aab?") own node (fun _ => false) (cfg _) (pure _) (wf _) 40 40
+  (C06_memoize_same_result_any_depth_partial (env false "aab?") own node (fun _ => false) (cfg _) (pure _) (wf _) 40 40
     v1 v2 errs1 errs2 s1 s2 h1 h2).1
 
 end ExampleC06
